@@ -138,16 +138,40 @@ def check_array(rep, tier):
         s = ir.Sym(h.func, forward_args=True)
         if s.unknown:
             raise AnalysisBroken("C12 %s: unmodelled instruction %s at %s" % (inst, s.unknown[0]["op"], ir.where(s.unknown[0])))
-        src_size = lambda t: t is not None and ir.strip_casts(t)[0] == 'ld' and ir.strip_casts(t)[1] == ('arg', 1) and ir.strip_casts(t)[2] == 0
+        def src_size(t):
+            """is t the source's m_size - literally, or in every case of a select that special-cases e.g. m_size == 0"""
+            if t is None:
+                return False
+            t = ir.strip_casts(t)
+            is_sz = lambda x: x[0] == 'ld' and x[1] == ('arg', 1) and x[2] == 0
+            if is_sz(t):
+                return True
+            cases = ir.poly_cases(t, 'int', width=64)
+            if not cases:
+                return False
+            for sub, pl in cases:
+                szs = [a for mon in pl.t for a in mon if isinstance(a, tuple) and is_sz(a)] + [a for a in sub if is_sz(a)]
+                if not szs:
+                    return False
+                want = ir.to_poly(sub[szs[0]], 'int', width=64) if szs[0] in sub else ir.Poly.atom(szs[0], 1 << 64)
+                if pl != want:
+                    return False
+            return True
         news = [c for c in s.calls if c.name == "_Znam"]
         cps = [st for st in s.stores if isinstance(st.val, tuple) and st.val[0] == 'blk']
         why = None
-        if len(news) != 1:
-            why = "%d buffer allocations, expected exactly one fresh buffer" % len(news)
+        if not news:
+            why = "no buffer allocation, expected a fresh buffer"
+        elif len(news) > 1 and ir.merge_calls(news, limit=10, exhaustive=False) is None:
+            rep.undecided("C12.b %s: %d buffer allocations whose conditions are not recognisably alternatives of each other; not decided" % (inst, len(news)))
+            continue
         else:
-            cnt = count_of(news[0].args[0], stride)
-            if not src_size(cnt):
-                why = "fresh buffer holds %s elements, expected source.m_size" % (ir.show(cnt)[:80] if cnt else ir.show(news[0].args[0])[:80])
+            # one allocation, or alternatives (a plain and a value-initialising one, say): each must have the source's element count
+            for nw in news:
+                cnt = count_of(nw.args[0], stride)
+                if not src_size(cnt):
+                    why = "fresh buffer holds %s elements, expected source.m_size" % (ir.show(cnt)[:80] if cnt else ir.show(nw.args[0])[:80])
+        fresh = {('ret', nw.n) for nw in news}
         if why is None:
             if not cps:
                 why = "no block copy from the source's buffer"
@@ -157,7 +181,7 @@ def check_array(rep, tier):
                 ncnt = count_of(n, stride)
                 via_member = st.base[0] == 'mem' and st.base[1][0] == 'ld' and st.base[1][1] == ('arg', 0) and st.base[1][2] == 8
                 lits = ir.common_lits(st.cond)
-                if st.base == ('ret', news[0].n) or (via_member and kind == "copy-assign" and ir.restrict(st.cond, news[0].cond, True) != ir.FALSE and
+                if st.base in fresh or (via_member and kind == "copy-assign" and ir.restrict(st.cond, news[0].cond, True) != ir.FALSE and
                                                       any(l in ir.common_lits(news[0].cond) or True for l in [0]) and target_is_fresh(s, st, news[0])):
                     pass
                 elif via_member:
@@ -185,8 +209,12 @@ def check_array(rep, tier):
                     fin[st.off] = st
             if 0 not in fin or not src_size(ir.ungate(fin[0].val)):
                 why = "m_size of the target is %s afterwards, expected source.m_size" % (ir.show(fin[0].val)[:60] if 0 in fin else "left unchanged")
-            elif 8 not in fin or ir.strip_casts(ir.ungate(fin[8].val), ("ptrtoint", "bitcast"))[:2] != ('ptr', ('ret', news[0].n)):
-                why = "m_ptr of the target is %s afterwards, expected the fresh buffer" % (ir.show(fin[8].val)[:60] if 8 in fin else "left unchanged")
+            else:
+                def leaves(t):
+                    t = ir.strip_casts(ir.ungate(t), ("ptrtoint", "bitcast"))
+                    return leaves(t[2]) + leaves(t[3]) if t[0] == 'sel' else [t]
+                if 8 not in fin or not all(l[:2] in [('ptr', f_) for f_ in fresh] for l in leaves(fin[8].val)):
+                    why = "m_ptr of the target is %s afterwards, expected the fresh buffer" % (ir.show(fin[8].val)[:60] if 8 in fin else "left unchanged")
         if why:
             rep.fail("C12.b", inst, FILE, why)
         else:
